@@ -93,8 +93,13 @@ def get_text_from(path, encoding=None) -> str:
     except TypeError:
         # Not an os.PathLike, maybe it is an already-opened file object
         if path.readable():
-            # A pipe (like STDIN) cannot say where it is, or go back there.
-            position = path.tell() if path.seekable() else None
+            # A pipe (like STDIN) cannot say where it is, or go back there,
+            # and neither can a text file that is being iterated over
+            # (after next(), tell() raises OSError).
+            try:
+                position = path.tell() if path.seekable() else None
+            except OSError:
+                position = None
             try:
                 s = path.read()
                 if isinstance(s, bytes):
